@@ -130,12 +130,13 @@ CLAIMED["C08"] = ("proof",
     "Gallina model of mode.New/Detect/WriteMsg/ReadMsg (Abridged, Intermediate) and transport.ReadMsg written against an abstract exact-count read, instantiated over a LIST OF "
     "CHUNKS (io.ReadFull semantics) and over the flat stream; theorems: for every mode, every list of carriable messages and EVERY chunking of announce ++ frames the reader "
     "detects the mode and returns exactly the messages then end-of-stream; the result of reading any byte stream is independent of its segmentation (parametric simulation); "
-    "byte-exact headers incl. the 126/127-word boundary; a four-byte frame is surfaced as the signed 32-bit code it carries; end of stream is EOF, never a message. Tied to the "
+    "byte-exact headers incl. the 126/127-word boundary; a four-byte frame is surfaced as the signed 32-bit code it carries; end of stream is EOF, never a message; a stream that ends after ANY proper prefix of a frame yields exactly the complete messages before it and then an error - the "
+    "incomplete frame is never a message (C08_truncated_frame_is_not_a_message, C08_client_truncated_frame; 'unexpected end' once a body byte has arrived). Tied to the "
     "code over a real loopback TCP connection owned by transport.NewTCP, the harness feeding the stream chunk by chunk behind a kernel-level barrier (all compositions of streams "
     "up to 14 bytes, 1-byte-at-a-time, random cuts, messages up to 2^20 bytes).",
     "DESIGN.md section 8 (C08: plan) and section 11.4 / 11.6 (as built)",
     "Trusted: Coq kernel; extraction; harness incl. its ioctl barrier (self-validated each run); io.ReadFull / net.TCPConn.Read semantics as modelled; in-order loopback delivery. "
-    "Mid-frame close is outside the property.",
+    "Read deadlines and cancellation are outside the model (observed scenarios only: nothing never sent may be delivered; pieces that each arrive within the deadline must be delivered).",
     "machine-checked proof in Coq + correspondence over real loopback TCP under chosen segmentations")
 
 CLAIMED["C05"] = ("proof",
@@ -215,7 +216,8 @@ CLAIMED["C11"] = ("proof",
     "newest adoption and every adoption is in the session store; each frame carries the salt adopted before it was written; a request is on the wire twice only if the earlier frame "
     "was rejected by a bad_server_salt naming exactly its id, and then under the new salt; no id is retried twice; accepted requests are never re-sent; every completed call returned "
     "the result for its newest non-rejected id; every table entry has a live owner so each send of the receive loop is eventually enabled (no stall); new_session_created adopts and "
-    "saves. Tied to the code by trace validation of the real client (controlled scheduler + reference server, fresh and resumed sessions) through the extracted step2.",
+    "saves; with a session storage that can fail the storage holds the client's salt whenever the newest SaveSession call succeeded (C11_storage_*; the harness runs failing "
+    "storages and counts every SaveSession call in the projection). Tied to the code by trace validation of the real client (controlled scheduler + reference server, fresh and resumed sessions) through the extracted step2.",
     "DESIGN.md section 8 (C09-C11, C16: plan) and section 11.4 / 11.6 (as built)",
     "Trusted: as C09 plus cmd/c11 (keyex front for fresh sessions). Fairness and real time-outs assumed; pinger and read deadline outside the histories.",
     "machine-checked invariants in Coq over all histories + trace validation of the real client")
